@@ -93,7 +93,8 @@ def fxTy (s : String) : Option Ty :=
 def parseREvs (s : String) : Option (List REv) :=
   if s = "-" then some [] else
   (s.splitOn ",").mapM fun t =>
-    if t = "p" then some .pending else if t = "e" then some .eof else if t = "f" then some .fail
+    -- `i`: the call fails with `Interrupted` - for `read_exact` a failure like any other (the reading stops there)
+    if t = "p" then some .pending else if t = "e" then some .eof else if t = "f" || t = "i" then some .fail
     else if t.startsWith "t:" then some .pending      -- a pause in (virtual) time: nothing arrives
     else if t.startsWith "d:" then (unhex? (t.drop 2).toString).map .data else none
 
@@ -226,6 +227,9 @@ def tlsLine (toks : List String) : String :=
     | some "wrongname" => .wrongName | some "untrusted" => .untrusted | _ => .good
   let addr : Tls.AddrKind := match kvOf toks "addr" with | some "ip" => .ip | some "ip6" => .ip6 | _ => .host
   let c : Tls.Cell := ⟨b "ctls", b "verify", b "stls", cert, addr⟩
+  -- `cert=weak`: an identity the TLS library refuses to build an acceptor from: `listen` fails, nobody is served
+  if kvOf toks "cert" == some "weak" then
+    "refused clear=0 answered=0 served=0 | refused | -" else
   let o := Tls.outcome c ['3', '8', '6', '8']
   let cls := match o with | .session => "session" | .plain => "plain" | .refused => "refused"
   let answered := o != .refused
@@ -244,6 +248,7 @@ def faultItems (kind : String) (k : Nat) : List Acc.Item × Bool :=   -- (what t
   | "stall_announce_max" => ([], true)
   | "reset" => ([.req (910000 + k), .close], true)
   | "panic" => ([.boom (920000 + k)], true)
+  | "panic_sync" => ([.boom (925000 + k)], true)
   | "garbage_close" => ([.bad, .close], true)
   | "hello_close" => ([.bad, .close], true)
   | "plain_req_close" => ([.req (930000 + k), .close], true)
@@ -473,6 +478,8 @@ def step (s : DState) (line : String) : DState × String :=
     | some bs => (s, decLine s.cfg s.ms.dict bs)
     | none => plain s "bad-op"
   | "tls" :: rest => (s, tlsLine rest)
+  | "tlsrude" :: _ => (s, "refused clear=0 conns=1 | refused | -")   -- a failed handshake is a refusal, whatever `verify` says
+  | ["cliswitch", _] => plain s "first=err reader1_stopped=1"
   | ["tlsq", cells] =>
     -- cells of the table one after the other in one process: each cell's prediction is the cell's own (no state is carried)
     let parts := (cells.splitOn ";").map fun c => (tlsLine (c.splitOn ",")).splitOn " | "
